@@ -196,6 +196,37 @@ def sum_apps(exprs, seen=None):
     return out
 
 
+def dot_apps(exprs, seen=None):
+    out = {}
+    seen = set() if seen is None else seen
+
+    def visit(x):
+        if z3.is_app(x) and x.decl().kind() == z3.Z3_OP_UNINTERPRETED and x.decl().name() == 'dot_R' and x.num_args() == 4:
+            out[x.get_id()] = x
+    for e in exprs:
+        _walk(e, seen, visit)
+    return out
+
+
+def dot_axioms(app, frame=True):
+    """unfolding from the top (= Python's left fold) and frame instances for dot(a, b, lo, hi)"""
+    f = app.decl()
+    a, b, lo, hi = app.arg(0), app.arg(1), app.arg(2), app.arg(3)
+    out = [z3.Implies(hi <= lo, app == 0),
+           z3.Implies(hi > lo, app == f(a, b, lo, hi - 1) + z3.Select(a, hi - 1) * z3.Select(b, hi - 1))]
+    if frame:
+        # unfolding from the bottom (lemma.dot_unfold_low, proved by induction)
+        out.append(z3.Implies(hi > lo, app == z3.Select(a, lo) * z3.Select(b, lo) + f(a, b, lo + 1, hi)))
+        # frame lemmas (proved by induction in contracts/lemmas_sum.py: dot_frame_*)
+        if z3.is_app(a) and a.decl().kind() == z3.Z3_OP_STORE:
+            k = a.arg(1)
+            out.append(z3.Implies(z3.Or(k < lo, k >= hi), app == f(a.arg(0), b, lo, hi)))
+        if z3.is_app(b) and b.decl().kind() == z3.Z3_OP_STORE:
+            k = b.arg(1)
+            out.append(z3.Implies(z3.Or(k < lo, k >= hi), app == f(a, b.arg(0), lo, hi)))
+    return out
+
+
 def sum_axioms(app, frame=True):
     """definition unfolding and frame instances for one ground application sum(a, lo, hi)"""
     f = app.decl()
@@ -222,6 +253,8 @@ def instantiate(qf, univ, goal, rounds=2, extra_terms=(), budget=60000, sum_fram
             bound.add(v.get_id())
     seen_terms = set()
     seen_sum = set()
+    seen_dot = set()
+    pending_dot = []
     terms = {}
     total = 0
     sums_done = set()
@@ -231,10 +264,16 @@ def instantiate(qf, univ, goal, rounds=2, extra_terms=(), budget=60000, sum_fram
     for rnd in range(rounds + 1):
         t_new = index_terms(new_exprs, bound, seen_terms)
         s_new = sum_apps(new_exprs, seen_sum)
+        for did, app in dot_apps(new_exprs, seen_dot).items():
+            if did not in sums_done:
+                sums_done.add(did)
+                pending_dot.append(app)
         # terms occurring inside quantified bodies that do not mention bound variables are candidates too
         for k, v in t_new.items():
             terms.setdefault(k, v)
         fresh_exprs = []
+        while pending_dot:
+            fresh_exprs += dot_axioms(pending_dot.pop(), sum_frame)
         for sid, app in s_new.items():
             if sid in sums_done:
                 continue
